@@ -112,13 +112,13 @@ def handle : List String → Option String
       let choices ← parseNatLL? choices
       withScreen rest (fun s =>
         if f < 0 || f > 1 then showErr .valueError
-        else showPair (holdoutBalanced ((unobservedPlates s).map (fun p => ceilMul p.length f)) choices s))
+        else showPair (holdoutBalanced (fun n => ceilMul n f) choices s))
   | "ho-rand" :: frac :: choice :: rest => do
       let f ← floatOfBits? frac
       let choice ← parseNatList? choice
       withScreen rest (fun s =>
         if f < 0 || f > 1 then showErr .valueError
-        else showPair (holdoutRandom (ceilMul (rowsOf s).length f) choice s))
+        else showPair (holdoutRandom (fun n => ceilMul n f) choice s))
   | _ => none
 
 end Batchie.PrepIO
